@@ -1,7 +1,7 @@
 (* Execution glue for the correspondence runs of the solver machine (binary64 instance).  No proofs. *)
 From Coq Require Import List ZArith Bool.
 From Coq Require PrimFloat.
-From MV Require Import Common.Num Core.Machine Core.DE Core.NM.
+From MV Require Import Common.Num Core.Machine Core.DE Core.NM Core.Powell.
 Import ListNotations.
 Open Scope Z_scope.
 
@@ -31,6 +31,9 @@ Definition red_max (l : fvec) : PrimFloat.float :=
 
 Definition mk_de_in (t : list fvec) (d : option (list fvec)) : de_in NumF := Build_de_in NumF t d.
 Definition mk_nm_in (t : list fvec) (d : option (list fvec)) (ip : bool) (p : list nat) : nm_in NumF := Build_nm_in NumF t d ip p.
+
+Definition mk_pw_in (ls : list (list fvec * nat)) (x2 : option fvec) (took : bool) (d : option (list fvec)) : pw_in NumF :=
+  Build_pw_in NumF ls x2 took d.
 
 Definition vtr_default : term NumF := TVTR NumF (PrimFloat.opp PrimFloat.one) PrimFloat.zero.
 
@@ -92,6 +95,9 @@ Definition run_de (de2 : bool) (npop ndim : nat) (ops : list (op NumF (de_in Num
   mk_run (de_algo NumF finf de2) (pop NumF) (popE NumF) (de_init NumF finf (Nat.max (Nat.max npop ndim) 4) ndim) ops.
 Definition run_nm (npop ndim : nat) (ops : list (op NumF (nm_in NumF))) : result :=
   mk_run (nm_algo NumF finf) (sim NumF) (fsim NumF) (nm_init NumF finf ndim) ops.
+
+Definition run_pw (npop ndim : nat) (ops : list (op NumF (pw_in NumF))) : result :=
+  mk_run (pw_algo NumF finf) (px NumF) (pe NumF) (pw_init NumF finf ndim) ops.
 
 Definition check_trace (m : mask) (r : result) (exp : list obs) (calls : list (fvec * yval NumF)) (cbs : list fvec) : bool :=
   (negb (r_stuck r) && Nat.eqb (length (r_obs r)) (length exp) &&
